@@ -6,7 +6,9 @@ import (
 	"fmt"
 	"io"
 	"strings"
+	"sync"
 	"testing"
+	"time"
 
 	"verif.local/lib/evid"
 	"verif.local/lib/refs"
@@ -20,22 +22,22 @@ import (
 // an observed EOF, never a timeout.
 func TestVerif_C28(t *testing.T) {
 	rec := evid.New("C28")
-	rec.Rule = "start paths {AbsfsNFS.Export with port 0 / explicit port, Server.Listen with UseRecordMarking, StartWithPortmapper} x debug {off,on} (+ squash root/all/none); a conformant record-marking client performs NULL (AUTH_NONE), MNT / and GETATTR of the mounted handle, then keeps talking on the same connection (replies of every length in every order); then Unexport/Stop; distinct = (start path, option combination, step, outcome) tuples"
+	rec.Rule = "start paths {AbsfsNFS.Export with port 0 / explicit port, Server.Listen with UseRecordMarking, StartWithPortmapper} x debug {off,on} (+ squash root/all/none); a conformant record-marking client performs NULL (AUTH_NONE), MNT / and GETATTR of the mounted handle, then keeps talking on the same connection (replies of every length in every order; every credential shape a conformant client may present; calls cut into record fragments; one backend call that takes 7 s of the 30 s default timeout); then Unexport/Stop; distinct = (start path, option combination, step, outcome) tuples"
 	defer rec.Write()
 	for _, debug := range []bool{false, true} {
 		for _, pathName := range []string{"Export(port 0)", "Export(explicit port)", "Server.Listen+UseRecordMarking", "StartWithPortmapper"} {
-			vfC28One(rec, pathName, debug, "")
+			vfC28One(rec, pathName, debug, "", !debug && (pathName == "Export(port 0)" || pathName == "Server.Listen+UseRecordMarking"))
 		}
 	}
 	// the same with identity squashing configured (the NULL ping carries AUTH_NONE)
 	for _, sq := range []string{"root", "all", "none"} {
 		for _, pathName := range []string{"Export(port 0)", "Server.Listen+UseRecordMarking"} {
-			vfC28One(rec, pathName, sq == "all", sq)
+			vfC28One(rec, pathName, sq == "all", sq, false)
 		}
 	}
 }
 
-func vfC28One(rec *evid.Rec, pathName string, debug bool, squash string) {
+func vfC28One(rec *evid.Rec, pathName string, debug bool, squash string, slowOnce bool) {
 	fs := refs.New()
 	fs.PlantFile("/f", []byte("x"), 0644, 0, 0)
 	n, err := New(fs, ExportOptions{Squash: squash})
@@ -203,5 +205,44 @@ func vfC28One(rec *evid.Rec, pathName string, debug bool, squash string) {
 		}
 	}
 	conn.cred = nil
+	// a client may cut any call into several record fragments (RFC 5531 section 11): header and
+	// credential in one, arguments in the next, or many small ones
+	for _, fr := range []int{40, 16, 4} {
+		conn.frag = fr
+		if step(fmt.Sprintf("MNT/fragments-of-%d", fr), vfProgMount, 1, (&xdrw.W{}).Str("/").B) == nil {
+			return
+		}
+		rp := step(fmt.Sprintf("GETATTR/fragments-of-%d", fr), vfProgNFS, 1, xdrw.ArgFH(vfFH(m.FH)))
+		if rp == nil {
+			return
+		}
+		if g, derr := rfc.DecodeNFS(1, rp.Body); derr != nil || g.Status != 0 || g.Attr.Type != 2 {
+			rec.Violate("C28/getattr-of-mounted-handle-failed/start="+pathName+"/fragmented-call", fmt.Sprintf("%v %+v", derr, g), nil)
+		}
+	}
+	conn.frag = 0
+	// a backend that is slow but well inside the default request timeout (30 s): one lstat takes 7 s.
+	// The verdict is the connection being closed instead of the call being answered; a client-side
+	// timeout is inconclusive.
+	if slowOnce {
+		var once sync.Once
+		fs.SetHook(func(op *refs.Op, ph refs.Phase) error {
+			if ph == refs.Before && op.Name == "Lstat" {
+				once.Do(func() { time.Sleep(7 * time.Second) })
+			}
+			return nil
+		})
+		rp := step("GETATTR/one-backend-call-takes-7s", vfProgNFS, 1, xdrw.ArgFH(vfFH(m.FH)))
+		fs.SetHook(nil)
+		if rp == nil {
+			return
+		}
+		if g, derr := rfc.DecodeNFS(1, rp.Body); derr != nil || g.Status != 0 || g.Attr.Type != 2 {
+			rec.Violate("C28/getattr-of-mounted-handle-failed/start="+pathName+"/slow-backend-within-the-default-timeout", fmt.Sprintf("%v %+v", derr, g), nil)
+		}
+		if step("NULL/after-the-slow-call", vfProgNFS, 0, nil) == nil {
+			return
+		}
+	}
 	rec.Sample(map[string]any{"start": desc, "port": port})
 }
